@@ -15,6 +15,7 @@ from pmon.gen import graphs as G, models as M
 from pmon.checks import _graphs
 
 ID = 'C03'
+PYTEST_LAW = 'C03'     # also run /repo's own tests with this property's law attached
 RULE = ('WF-G graphs (DESIGN 3.4). Exhaustive: <=3 variables (concepts A / None / spelled like a '
         'variable), <=3 edges over {:R,:R-of,:S}, 0-2 attributes incl. the numeric constant 0 and a '
         'missing target; marker states {none, decoded from each top}; every permutation of the '
